@@ -509,30 +509,36 @@ carquet_status_t carquet_offset_index_serialize(
 static int index_compare(carquet_physical_type_t type,
                          const void* a, int32_t a_len,
                          const void* b, int32_t b_len) {
+    /* a is the query value, b the stored page statistic. For fixed-width numbers
+     * the query value has the width of the type (value_len is documented for byte
+     * array types only and may be 0); a stored statistic of another width cannot
+     * be ordered against it: report "equal", which never prunes. */
     switch (type) {
-        case CARQUET_PHYSICAL_INT32:
-            if (a_len == 4 && b_len == 4) {
-                int32_t x, y; memcpy(&x, a, 4); memcpy(&y, b, 4);
-                return (x > y) - (x < y);
-            }
-            break;
-        case CARQUET_PHYSICAL_INT64:
-            if (a_len == 8 && b_len == 8) {
-                int64_t x, y; memcpy(&x, a, 8); memcpy(&y, b, 8);
-                return (x > y) - (x < y);
-            }
-            break;
-        case CARQUET_PHYSICAL_FLOAT:
-            if (a_len == 4 && b_len == 4) {
-                float x, y; memcpy(&x, a, 4); memcpy(&y, b, 4);
-                return (x > y) - (x < y);   /* unordered (NaN) compares equal: no pruning */
-            }
-            break;
-        case CARQUET_PHYSICAL_DOUBLE:
-            if (a_len == 8 && b_len == 8) {
-                double x, y; memcpy(&x, a, 8); memcpy(&y, b, 8);
-                return (x > y) - (x < y);
-            }
+        case CARQUET_PHYSICAL_INT32: {
+            if (b_len != 4) return 0;
+            int32_t x, y; memcpy(&x, a, 4); memcpy(&y, b, 4);
+            return (x > y) - (x < y);
+        }
+        case CARQUET_PHYSICAL_INT64: {
+            if (b_len != 8) return 0;
+            int64_t x, y; memcpy(&x, a, 8); memcpy(&y, b, 8);
+            return (x > y) - (x < y);
+        }
+        case CARQUET_PHYSICAL_FLOAT: {
+            if (b_len != 4) return 0;
+            float x, y; memcpy(&x, a, 4); memcpy(&y, b, 4);
+            return (x > y) - (x < y);   /* unordered (NaN) compares equal: no pruning */
+        }
+        case CARQUET_PHYSICAL_DOUBLE: {
+            if (b_len != 8) return 0;
+            double x, y; memcpy(&x, a, 8); memcpy(&y, b, 8);
+            return (x > y) - (x < y);
+        }
+        case CARQUET_PHYSICAL_BOOLEAN:
+        case CARQUET_PHYSICAL_INT96:
+        case CARQUET_PHYSICAL_FIXED_LEN_BYTE_ARRAY:
+            /* fixed width: the query value is as long as the stored statistic */
+            if (a_len <= 0) a_len = b_len;
             break;
         default:
             break;
